@@ -31,9 +31,9 @@ def run(ctx):
             for level in range(1, depth + 1):
                 for target in (None, 'sib', 'sib.leaf'):
                     imports.append([level, target, [['n1', None], ['n2', 'alias2']]])
-            trees.append({'pkg': pkg, 'kind': kind, 'imports': imports})
+            trees.append({'pkg': pkg, 'kind': kind, 'imports': imports, 'shift': len(trees)})
             # the same file reached through a symbolic link at the top-level package (its target directory has another name)
-            trees.append({'pkg': pkg, 'kind': kind, 'imports': imports, 'link': len(trees) + 1})
+            trees.append({'pkg': pkg, 'kind': kind, 'imports': imports, 'link': len(trees) + 1, 'shift': len(trees) + 5})
     ctx.log('%d unit cases, %d file rewrites' % (len(units), len(trees)))
     results = corelib.run_real(build, units + trees, worker='c17_worker.py')
     model = None
